@@ -138,67 +138,69 @@ def r1_stage_order(ctx) -> None:
         r.ok("C14.R1", cr.qual, "rule.detection.parsed_condition is read only after the pipeline was applied", cr.loc)
     else:
         r.violation("C14.R1", cr.qual, f"rule.detection.parsed_condition: stages ran as {' → '.join(tr)}", "conditions are read before the pipeline ran: condition-rewriting transformations are ignored", cr.loc)
+    # the later stages interpreted (sa.tabulate, Proxy) on recording stand-ins
+    from ..tabulate import Proxy, call_method, Raised
+    from .standins import PipeStandin
     fqf = prog.func(BK + ".finalize_query")
-    rets = [x for x in walk_no_nested(fqf.node) if isinstance(x, ast.Return)]
-    if len(rets) == 1 and isinstance(rets[0].value, ast.Call) and call_name(rets[0].value) == "self.last_processing_pipeline.postprocess_query" \
-            and len(rets[0].value.args) == 2 and unparse(rets[0].value.args[1]) == "backend_query":
-        defs = assignments_to(fqf.node, "backend_query")
-        if len(defs) == 1 and "finalize_query_" in unparse(defs[0]):
-            r.ok("C14.R1", fqf.qual, "format-specific finalisation, then postprocess_query(rule, backend_query)", f"{fqf.module.relpath}:{rets[0].lineno}")
-        else:
-            r.violation("C14.R1", fqf.qual, "backend_query = finalize_query_<format>(...)", "post-processing does not receive the format-specific finalised query", fqf.loc)
+    envq = {"SigmaBackendError": type("SigmaBackendError", (Exception,), {})}
+    IKq = {"behaviours": (envq["SigmaBackendError"],), "max_steps": 4000}
+
+    class _PPL(PipeStandin):
+        def postprocess_query(self, rule, query): return f"POST({query})"
+
+    meq = Proxy(prog, BK, envq, {"formats": {"default": "d", "other": "o"}, "last_processing_pipeline": _PPL(["p"]), "default_format": "default",
+                                 "finalize_query_default": lambda rule, q, i_, st: f"FMT-default({q})", "finalize_query_other": lambda rule, q, i_, st: f"FMT-other({q})"}, interp_kwargs=IKq)
+    outs = {}
+    for fmt in ("default", "other", "unknown"):
+        try:
+            outs[fmt] = call_method(prog, BK, "finalize_query", meq, envq, "rule", "q", 0, "state", fmt, interp_kwargs=IKq)
+        except Raised as ex:
+            outs[fmt] = "error" if "SigmaBackendError" in str(ex) else f"<raises {ex}>"
+    if outs == {"default": "POST(FMT-default(q))", "other": "POST(FMT-other(q))", "unknown": "error"}:
+        r.ok("C14.R1", fqf.qual, "format-specific finalisation, then postprocess_query(rule, backend_query); an unknown format is refused", fqf.loc)
     else:
-        r.violation("C14.R1", fqf.qual, "return self.last_processing_pipeline.postprocess_query(rule, backend_query)", "finalize_query no longer ends in the pipeline's query post-processing", fqf.loc)
+        r.violation("C14.R1", fqf.qual, f"return self.last_processing_pipeline.postprocess_query(rule, backend_query): {outs}", "finalize_query no longer ends in the pipeline's query post-processing of the format-specific finalised query", fqf.loc)
     ff = prog.func(BK + ".finalize")
-    rets = [x for x in walk_no_nested(ff.node) if isinstance(x, ast.Return)]
-    if len(rets) == 1 and isinstance(rets[0].value, ast.Call) and call_name(rets[0].value) == "self.last_processing_pipeline.finalize" and unparse(rets[0].value.args[0]) == "output":
-        defs = assignments_to(ff.node, "output")
-        if len(defs) == 1 and "finalize_output_" in unparse(defs[0]):
-            r.ok("C14.R1", ff.qual, "format-specific output finalisation, then pipeline.finalize(output)", f"{ff.module.relpath}:{rets[0].lineno}")
-        else:
-            r.violation("C14.R1", ff.qual, "output = finalize_output_<format>(queries)", "pipeline finalizers do not receive the format-specific output", ff.loc)
+    del PipeStandin.log[:]
+    mef = Proxy(prog, BK, envq, {"formats": {"default": "d"}, "last_processing_pipeline": PipeStandin(["p"]), "default_format": "default", "finalize_output_default": lambda qs: ("FMT-OUT", list(qs))}, interp_kwargs=IKq)
+    try:
+        fo = call_method(prog, BK, "finalize", mef, envq, ["q1", "q2"], "default", interp_kwargs=IKq)
+    except Raised as ex:
+        fo = f"<raises {ex}>"
+    fins = [e for e in PipeStandin.log if e[0] == "finalize"]
+    if len(fins) == 1 and isinstance(fo, tuple) and fo[0] == "PIPELINE-FINAL":
+        r.ok("C14.R1", ff.qual, "the result of finalize() is what the pipeline's finalizers return (run once, last)", ff.loc)
     else:
-        r.violation("C14.R1", ff.qual, "return self.last_processing_pipeline.finalize(output)", "finalize no longer ends in the pipeline's finalizers", ff.loc)
-    for fn, lst, call in ((PP + ".apply", "self.items", "item.apply"), (PP + ".postprocess_query", "self.postprocessing_items", "item.apply"), (PP + ".finalize", "self.finalizers", "finalizer.apply")):
+        r.violation("C14.R1", ff.qual, f"return self.last_processing_pipeline.finalize(output): result {fo!r}, {len(fins)} finalizer run(s)", "finalize no longer ends in the pipeline's finalizers", ff.loc)
+    # the stage loops of the pipeline: list order, every element, each element gets what its predecessor produced
+    order: list = []
+
+    class _Stage:
+        def __init__(self, tag): self.tag, self.identifier = tag, tag
+        def apply(self, *a):
+            order.append(self.tag)
+            if len(a) == 2:      # query post-processing item: (rule, query) → (query, applied)
+                return f"{a[1]}+{self.tag}", self.tag != "b"
+            if len(a) == 1 and isinstance(a[0], (list, str)):  # finalizer: output → output
+                return (a[0] + [self.tag]) if isinstance(a[0], list) else f"{a[0]}+{self.tag}"
+            return self.tag != "b"  # processing item: rule → applied
+
+    from collections import defaultdict as _dd
+    stages = [_Stage("a"), _Stage("b"), _Stage("c")]
+    envp = {"defaultdict": _dd}
+    mep = Proxy(prog, PP, envp, {"items": stages, "postprocessing_items": stages, "finalizers": stages, "applied": [], "applied_ids": set(), "field_name_applied_ids": {}, "field_mappings": None, "state": {}, "vars": {}}, interp_kwargs={"max_steps": 6000})
+    for fn, args, want in ((PP + ".apply", ("rule",), "rule"), (PP + ".postprocess_query", ("rule", "q"), "q+a+b+c"), (PP + ".finalize", (["q"],), ["q", "a", "b", "c"])):
         f = prog.func(fn)
-        loops = [n for n in walk_no_nested(f.node) if isinstance(n, ast.For)]
-        good = [n for n in loops if unparse(n.iter) == lst and any(isinstance(c, ast.Call) and call_name(c) == call for c in ast.walk(n))]
-        if len(good) == 1 and len(loops) == 1:
-            lp = good[0]
-            brk = [x for x in ast.walk(lp) if isinstance(x, (ast.Break, ast.Continue))]
-            if brk:
-                r.violation("C14.R1", f.qual, stmt_head(lp), "the stage loop can skip or stop before the end of its list", f"{f.module.relpath}:{lp.lineno}")
-            else:
-                r.ok("C14.R1", f.qual, f"for … in {lst}: {call}(…) — list order, every element", f"{f.module.relpath}:{lp.lineno}")
+        del order[:]
+        try:
+            got = call_method(prog, PP, fn.rsplit(".", 1)[1], mep, envp, *args, interp_kwargs={"max_steps": 6000})
+        except Raised as ex:
+            got = f"<raises {ex}>"
+        if order == ["a", "b", "c"] and got == want:
+            r.ok("C14.R1", f.qual, f"{fn.rsplit('.', 1)[1]}: list order, every element, each element receives its predecessor's result (interpreted on three stand-in elements)", f.loc)
         else:
-            r.violation("C14.R1", f.qual, f"for … in {lst}", f"stage does not iterate {lst} in order with a plain loop (iterables found: {[unparse(n.iter) for n in loops]})", f.loc)
-    # threading of the value through the post-processing / finalizer chain
-    f = prog.func(PP + ".postprocess_query")
-    if "query, applied = item.apply(rule, query)" in unparse(f.node) and "return query" in unparse(f.node):
-        r.ok("C14.R1", f.qual, "each post-processing item receives the previous item's query", f.loc)
-    else:
-        r.violation("C14.R1", f.qual, "query, applied = item.apply(rule, query)", "post-processing items are not chained", f.loc)
-    f = prog.func(PP + ".finalize")
-    if "output = finalizer.apply(output)" in unparse(f.node) and "return output" in unparse(f.node):
-        r.ok("C14.R1", f.qual, "each finalizer receives the previous finalizer's output", f.loc)
-    else:
-        r.violation("C14.R1", f.qual, "output = finalizer.apply(output)", "finalizers are not chained", f.loc)
+            r.violation("C14.R1", f.qual, f"{fn.rsplit('.', 1)[1]}: elements run {order}, result {got!r}", f"expected order ['a', 'b', 'c'] and result {want!r}: the stage loop skips, stops early, reorders or does not chain its elements", f.loc)
     _finalize_table(ctx)
-    # both per-rule converters can be called on a fresh backend: each builds the combined pipeline if there is none yet
-    from ..util import cfg_of as _cfg
-    for fn in ("convert_rule", "convert_correlation_rule"):
-        cf = prog.func(f"sigma.conversion.base.Backend.{fn}")
-        inits = [c for c in walk_no_nested(cf.node) if isinstance(c, ast.Call) and call_name(c) == "self.init_processing_pipeline"]
-        uses = [c for c in walk_no_nested(cf.node) if isinstance(c, ast.Call) and call_name(c) == "self.last_processing_pipeline.apply"]
-        if not uses:
-            raise AnalysisError(f"{cf.qual}: pipeline application not found")
-        cfg_ = _cfg(cf)
-        guard_ifs = [n for n in walk_no_nested(cf.node) if isinstance(n, ast.If) and "last_processing_pipeline" in unparse(n.test) and any(c in list(ast.walk(n)) for c in inits)]
-        ok_ = bool(guard_ifs) and all(cfg_.must_pass(u, cfg_.nodes_of(guard_ifs[0].test)) for use in uses for u in cfg_.nodes_of(prog.enclosing_stmt(use)))
-        if ok_:
-            r.ok("C14.R1", cf.qual, "combined pipeline is built on demand before it is applied", f"{cf.module.relpath}:{guard_ifs[0].lineno}")
-        else:
-            r.violation("C14.R1", cf.qual, "self.last_processing_pipeline.apply(rule) without lazy initialisation", "this per-rule converter applies the combined pipeline without building it when there is none: on a backend that has not converted anything yet it fails with AttributeError (its sibling builds it on demand)", cf.loc)
     r.floor("C14.R1", 15)
 
 
